@@ -178,6 +178,10 @@ pub enum RaftWalEntry {
         term: u64,
         entry_data: Vec<u8>,
     },
+
+    /// Entries up to and including this index are covered by an installed snapshot
+    /// and are no longer held in the log.
+    LogCompact { through_index: u64 },
 }
 
 /// Write-Ahead Log for Raft state.
@@ -783,6 +787,10 @@ impl RaftRecoveryState {
                     for key in to_remove {
                         log_map.remove(&key);
                     }
+                },
+                RaftWalEntry::LogCompact { through_index } => {
+                    // Everything up to this index is covered by a snapshot
+                    log_map = log_map.split_off(&(through_index + 1));
                 },
                 RaftWalEntry::LogAppend { .. } => {
                     // Legacy variant - no full data to recover
